@@ -45,7 +45,7 @@ FINDINGS = [
     dict(
         id="C01-dotted-code-default-parse-raises",
         property="C01",
-        pattern=dict(check=RT, field="parse", observed="raises ValueError", style="rest", emit_types=False, typ_classes="dotted", default_kinds="code"),
+        pattern=dict(check=RT, field="parse", observed="raises ValueError", style="rest", emit_types=False, dotted_code_default=True),
         what="ReST text 'Defaults to ```pkg.Kind.A```' without a :type: line makes the parser raise ValueError (literal_eval of a dotted name)",
         site="cdd/shared/docstring_parsers.py:_infer_default (literal_eval on the de-quoted expression)",
         example="{'alpha': {'typ': 'pkg.Kind', 'doc': 'the value', 'default': '```pkg.Kind.A```'}}, rest, emit_types=False",
@@ -53,8 +53,8 @@ FINDINGS = [
     dict(
         id="C01-empty-string-default-lost",
         property="C01",
-        pattern=dict(check=RT, field="default", expected="emptystr", observed={"in": ["ABSENT", "str"]}),
-        what="an empty-string default is emitted as 'Defaults to ' with nothing after it and is lost (or read as '()') on the way back",
+        pattern=dict(check=RT, field="default", expected="emptystr", observed={"in": ["ABSENT", "str", "None"]}),
+        what="an empty-string default is emitted as 'Defaults to ' with nothing after it and is lost (or read as '()', or - for an Optional type after a defaulted neighbour - replaced by None) on the way back",
         site="cdd/shared/defaults_utils.py:set_default_doc (quote('') yields '') / extract_default",
         example="{'alpha': {'typ': 'str', 'doc': 'the value', 'default': ''}}, any style, emit_default_doc=True",
     ),
